@@ -9,8 +9,14 @@ def _luhn(digits):
     return str((10 - tot % 10) % 10)
 
 
-def replay_luhn(digits, what, pos=None, x=None, swap=None, xbase=48):
+def replay_luhn(digits, what, pos=None, x=None, swap=None, xbase=48, prior=False):
     from cardutil import card
+    if prior:
+        for tail in ('7', '70'):
+            try:
+                card.validate_check_digit(card.add_check_digit(digits + tail))
+            except AssertionError:
+                pass
     import sys
     mode = '-O' if sys.flags.optimize else 'normal'
     only = ''.join(c for c in digits if c.isdigit())
